@@ -1053,7 +1053,59 @@ class Interp:
             return [(q, v)]
         return self.bind(self.eval(e.value, st, ctx), cont)
 
+    def _symbolic_anyall(self, e, st, ctx):
+        """any(X is v for v in S) / any(v is X for v in S) over a symbolic list S: identity
+        membership  Contains(S, [X]).  Returns results or None when the shape does not apply."""
+        f = e.func
+        if not (isinstance(f, ast.Name) and f.id in ("any", "all") and len(e.args) == 1 and not e.keywords
+                and isinstance(e.args[0], ast.GeneratorExp) and f.id not in st.env):
+            return None
+        g = e.args[0]
+        if len(g.generators) != 1 or g.generators[0].ifs or not isinstance(g.generators[0].target, ast.Name):
+            return None
+        gen = g.generators[0]
+        elt = g.elt
+        if not (isinstance(elt, ast.Compare) and len(elt.ops) == 1 and isinstance(elt.ops[0], (ast.Is, ast.IsNot))):
+            return None
+        tv = gen.target.id
+        l, r = elt.left, elt.comparators[0]
+        if isinstance(l, ast.Name) and l.id == tv:
+            other = r
+        elif isinstance(r, ast.Name) and r.id == tv:
+            other = l
+        else:
+            return None
+        if any(isinstance(n, ast.Name) and n.id == tv for n in ast.walk(other)):
+            return None
+        out = []
+        for (q, itv) in self.eval(gen.iter, st, ctx):
+            if isinstance(itv, Raise):
+                out.append((q, itv))
+                continue
+            if not (isinstance(itv, Ref) and q.heap[itv.oid].kind == "list"):
+                return None
+            seq = q.heap[itv.oid].seq
+            for (z, ov) in self.eval(other, q, ctx):
+                if isinstance(ov, Raise):
+                    out.append((z, ov))
+                    continue
+                mem = z3.Contains(seq, z3.Unit(self.term(ov)))
+                is_ = isinstance(elt.ops[0], ast.Is)
+                if f.id == "any":
+                    form = mem if is_ else z3.Not(z3.And(z3.Length(seq) > 0, z3.BoolVal(False)))  # any(v is not X): not modelled
+                    if not is_:
+                        return None
+                else:
+                    if is_:
+                        return None
+                    form = z3.Not(mem)      # all(v is not X for v in S)
+                out.append((z, BoolV(form)))
+        return out
+
     def ex_Call(self, e, st, ctx):
+        r_ = self._symbolic_anyall(e, st, ctx)
+        if r_ is not None:
+            return r_
         # super().m(...)
         f = e.func
         if isinstance(f, ast.Attribute) and isinstance(f.value, ast.Call) and isinstance(f.value.func, ast.Name) \
